@@ -170,8 +170,9 @@ QG0(env, cfg, plusPath) ==
        THEN [err |-> Err(3, "InvalidBodyEncoding"), dc |-> FALSE]
     ELSE IF isForm /\ cs[1] /\ label \in ReplacementLabels /\ env.body # <<>>
        THEN [err |-> Err(3, "InvalidBodyEncoding"), dc |-> FALSE]
-    ELSE IF isForm /\ cs[1] /\ label \in OtherKnownLabels THEN [err |-> NoErr, dc |-> TRUE]   \* statement silent
-    ELSE IF isForm /\ cs[1] /\ label \notin Utf8Labels THEN [err |-> Err(3, "InvalidBodyEncoding"), dc |-> FALSE]
+    \* (an EMPTY body decodes to nothing in every charset: nothing is left open then)
+    ELSE IF isForm /\ cs[1] /\ label \in OtherKnownLabels /\ env.body # <<>> THEN [err |-> NoErr, dc |-> TRUE]   \* statement silent
+    ELSE IF isForm /\ cs[1] /\ label \notin Utf8Labels \cup OtherKnownLabels THEN [err |-> Err(3, "InvalidBodyEncoding"), dc |-> FALSE]
     ELSE IF isForm /\ ~Utf8Valid(env.body) THEN [err |-> Err(3, "InvalidBodyEncoding"), dc |-> FALSE]
     ELSE IF isForm /\ ~QueryOk(env.body) THEN [err |-> Err(3, "MalformedQueryString"), dc |-> FALSE]
     ELSE
